@@ -100,7 +100,7 @@ def fold_harness(w, iters, max_len, kinds='ITW'):
 
 
 def fold_tasks(tier, role):
-    it, ln = (2, 3) if tier == 'quick' else (3, 4)
+    it, ln = (2, 3) if tier == 'quick' else (2, 4)
     return [Task('fold_i%d_l%d' % (it, ln), 'fold_harness', {'iters': it, 'max_len': ln},
                  bounds='Fold::next driven to Terminate; upstream: %d iterations x <=%d elements, each '
                         'Item/Timestamped/Watermark in any order, payloads u8 and timestamps i64 symbolic '
